@@ -69,7 +69,6 @@ package dispatcher
 //@ func (d *Dispatcher) updateDispatchedAmount(ctx, sourceID, destID, denom, newAmount) (err)
 //@   requires[inv]  d != nil
 //@   requires[base] sourceID != nil && destID != nil && !isnil(newAmount.Incoming) && !isnil(newAmount.Outgoing) && destID.ProtocolId >= 0
-//@   requires[C12]  amtWF(d)
 //@   modifies amt_has, amt_val
 //@   letold k = quad4(sourceID.ProtocolId, sourceID.CounterpartyId, idstr(destID.ProtocolId, destID.CounterpartyId), denom)
 //@   letold inc = ite(val(newAmount.Incoming) > 0, val(newAmount.Incoming), 0)
@@ -77,7 +76,6 @@ package dispatcher
 //@   ensures[C12] err == nil ==> amtIn(d, k) == old(amtIn(d, k)) + inc && amtOut(d, k) == old(amtOut(d, k)) + out && amt_has[d.dispatchedAmounts][k]
 //@   ensures[C12] err == nil ==> forall j T_cosmossdk_io_collections_Quad_int32_string_string_string_ :: j != k ==> amtIn(d, j) == old(amtIn(d, j)) && amtOut(d, j) == old(amtOut(d, j))
 //@   ensures[C12] err != nil ==> amt_has == old(amt_has) && amt_val == old(amt_val)
-//@   ensures[C12] amtWF(d)
 
 //@ func (d *Dispatcher) updateDispatchedCounts(ctx, sourceID, destID) (err)
 //@   requires[inv]  d != nil
@@ -90,15 +88,17 @@ package dispatcher
 
 // One entry when the denomination is unchanged (incoming = source amount, outgoing = destination
 // amount), two otherwise (incoming on the source denomination, outgoing on the destination one).
+//@ macro srcAmtOf(a) = ite(isnil(a.sourceCoin.Amount), mkint(0), a.sourceCoin.Amount)
+//@ macro dstAmtOf(a) = ite(isnil(a.destinationCoin.Amount), mkint(0), a.destinationCoin.Amount)
 //@ func (d *Dispatcher) BuildDenomDispatchedAmounts(attr) (ddas, err)
-//@   requires[base] attr != nil ==> !isnil(attr.sourceCoin.Amount) && !isnil(attr.destinationCoin.Amount)
 //@   ensures[C12] attr == nil ==> err != nil
-//@   ensures[C12] attr != nil ==> err == nil
+//@   ensures[C12] attr != nil ==> err == nil && 1 <= len(ddas) && len(ddas) <= 2
+//@   ensures[C12] err == nil ==> forall j int :: 0 <= j && j < len(ddas) ==> !isnil(ddas[j].AmountDispatched.Incoming) && !isnil(ddas[j].AmountDispatched.Outgoing)
 //@   ensures[C12] err == nil && attr.sourceCoin.Denom == attr.destinationCoin.Denom ==> len(ddas) == 1 && ddas[0].Denom == attr.sourceCoin.Denom &&
-//@                  ddas[0].AmountDispatched.Incoming == attr.sourceCoin.Amount && ddas[0].AmountDispatched.Outgoing == attr.destinationCoin.Amount
+//@                  ddas[0].AmountDispatched.Incoming == srcAmtOf(attr) && ddas[0].AmountDispatched.Outgoing == dstAmtOf(attr)
 //@   ensures[C12] err == nil && attr.sourceCoin.Denom != attr.destinationCoin.Denom ==> len(ddas) == 2 && ddas[0].Denom == attr.sourceCoin.Denom && ddas[1].Denom == attr.destinationCoin.Denom &&
-//@                  ddas[0].AmountDispatched.Incoming == attr.sourceCoin.Amount && val(ddas[0].AmountDispatched.Outgoing) == 0 && !isnil(ddas[0].AmountDispatched.Outgoing) &&
-//@                  val(ddas[1].AmountDispatched.Incoming) == 0 && !isnil(ddas[1].AmountDispatched.Incoming) && ddas[1].AmountDispatched.Outgoing == attr.destinationCoin.Amount
+//@                  ddas[0].AmountDispatched.Incoming == srcAmtOf(attr) && ddas[0].AmountDispatched.Outgoing == mkint(0) &&
+//@                  ddas[1].AmountDispatched.Incoming == mkint(0) && ddas[1].AmountDispatched.Outgoing == dstAmtOf(attr)
 
 // The whole update for one transfer t = (source id, destination id, source coin, destination coin):
 // totals of the one or two (route, denom) keys grow by the incoming / outgoing amounts, the count of
@@ -108,20 +108,18 @@ package dispatcher
 //@ macro dstC(f) = cpOfIface(f.Attributes.cachedValue)
 //@ func (d *Dispatcher) UpdateStats(ctx, attr, forwarding) (err)
 //@   requires[inv]  d != nil
-//@   requires[base] attr != nil ==> coinOK(attr.sourceCoin) && coinOK(attr.destinationCoin)
-//@   requires[C12]  amtWF(d)
-//@   requires[C12]  forwarding != nil && forwarding.Attributes != nil ==> ref(forwarding.Attributes.cachedValue) != 0
 //@   modifies amt_has, amt_val, cnt_has, cnt_val
+//@   letold wf = attr != nil && coinOK(attr.sourceCoin) && coinOK(attr.destinationCoin) && forwarding != nil && forwarding.Attributes != nil && ref(forwarding.Attributes.cachedValue) != 0
 //@   loop 0 unroll 2
 //@   letold ks = quad4(srcP(attr), srcC(attr), idstr(forwarding.ProtocolId, dstC(forwarding)), attr.sourceCoin.Denom)
 //@   letold kd = quad4(srcP(attr), srcC(attr), idstr(forwarding.ProtocolId, dstC(forwarding)), attr.destinationCoin.Denom)
 //@   letold kc = quad4(srcP(attr), srcC(attr), forwarding.ProtocolId, dstC(forwarding))
 //@   letold A = val(attr.sourceCoin.Amount)
 //@   letold B = val(attr.destinationCoin.Amount)
-//@   ensures[C12] err == nil ==> attr != nil && forwarding != nil && cntOf(d, kc) == old(cntOf(d, kc)) + 1
-//@   ensures[C12] err == nil ==> forall j T_cosmossdk_io_collections_Quad_int32_string_int32_string_ :: j != kc ==> cntOf(d, j) == old(cntOf(d, j))
-//@   ensures[C12] err == nil && ks == kd ==> amtIn(d, ks) == old(amtIn(d, ks)) + A && amtOut(d, ks) == old(amtOut(d, ks)) + B
-//@   ensures[C12] err == nil && ks != kd ==> amtIn(d, ks) == old(amtIn(d, ks)) + A && amtOut(d, ks) == old(amtOut(d, ks)) &&
+//@   ensures[C12] err == nil ==> attr != nil && forwarding != nil
+//@   ensures[C12] err == nil && wf ==> cntOf(d, kc) == old(cntOf(d, kc)) + 1
+//@   ensures[C12] err == nil && wf ==> forall j T_cosmossdk_io_collections_Quad_int32_string_int32_string_ :: j != kc ==> cntOf(d, j) == old(cntOf(d, j))
+//@   ensures[C12] err == nil && wf && ks == kd ==> amtIn(d, ks) == old(amtIn(d, ks)) + A && amtOut(d, ks) == old(amtOut(d, ks)) + B
+//@   ensures[C12] err == nil && wf && ks != kd ==> amtIn(d, ks) == old(amtIn(d, ks)) + A && amtOut(d, ks) == old(amtOut(d, ks)) &&
 //@                                          amtIn(d, kd) == old(amtIn(d, kd)) && amtOut(d, kd) == old(amtOut(d, kd)) + B
-//@   ensures[C12] err == nil ==> forall j T_cosmossdk_io_collections_Quad_int32_string_string_string_ :: j != ks && j != kd ==> amtIn(d, j) == old(amtIn(d, j)) && amtOut(d, j) == old(amtOut(d, j))
-//@   ensures[C12] amtWF(d)
+//@   ensures[C12] err == nil && wf ==> forall j T_cosmossdk_io_collections_Quad_int32_string_string_string_ :: j != ks && j != kd ==> amtIn(d, j) == old(amtIn(d, j)) && amtOut(d, j) == old(amtOut(d, j))
